@@ -25,7 +25,7 @@ def specs(ctx):
                              nmax=8, jacs=(jac,), small_budgets=(i % 3 == 0), allow_target=False)
         s.setdefault("box_kinds", ["lo", "up", "box", "box", "box", "fix"])
         if jac != "callable":
-            s["box_kinds"] = ["lo", "up", "box", "box", "box"]
+            s["box_kinds"] = ["lo", "up", "box", "box", "box", "fix"]
             s["kwargs"]["maxiter"] = min(s["kwargs"].get("maxiter", 30), 30)
         else:
             s["kwargs"]["maxiter"] = min(s["kwargs"].get("maxiter", 60), 60)
